@@ -53,6 +53,14 @@ CHECKS = {
             'tables, and assemblies of 2..4 panels with all five connection kinds; the tangent is compared with the exact '
             'Jacobian of the package own internal force',
             'trusts vlib/ref/panel.py for the differential part; the Jacobian/closed-path parts use package outputs only', '3 C08'),
+    'C09': ('generated histories: user problems (linear, conservative springs with limit points, hash-scripted residual '
+            'sequences) x all driver settings; invariants over the whole run checked from inside the user callables '
+            '(instrumented Problem object) and on the reported lists',
+            'generated-input search over histories of converged / diverged / too-slow / iteration-limited steps with bisection '
+            'and re-growth; every reported pair re-evaluated against absTOL, strict load order, snapshot immutability and '
+            'aliasing, stop condition (next increment < minInc), termination as a derived call-count bound plus a wall-clock '
+            'watchdog, linear problems solved with the linear solution; also Panel.static(NLgeom=True)',
+            'user callables are pure; "equal to 1" read with the driver tolerance 1e-3; termination is a bounded-safety claim', '3 C09'),
     'C10': ('exhaustive enumeration of the finite table domains + Hypothesis-generated sub-intervals/maps/flags; oracle: '
             'exact rational Bardell polynomials; C sources parsed and evaluated in exact rational arithmetic',
             'the C library is compiled from the current tree and every one of the 6x900 full-interval entries x 256 flag '
